@@ -33,6 +33,7 @@ GENERATORS = {
     "MultiFactShape_gen": "translator.gen_mfshape",
     "Routed_gen": "translator.gen_routed",
     "CteShape_gen": "translator.gen_cte",
+    "SqlValue_gen": "translator.gen_sqlvalue",
 }
 
 
